@@ -70,18 +70,18 @@ type gworld struct {
 	panicSeq   int
 	thrown     []*panicVal
 
-	execCount  []int
-	executing  []bool
-	memo       []bool // model: key currently memoised
-	executedBy []int  // run tag of the execution that produced the current memo entry
-	obs        []observation
-	viol       *Verdict // first violation detected inside callbacks
-	prop       string
-	nextRun    int
-	activeRuns int
-	probeLocks bool
-	runActive  map[int]bool
-	usedDeps   [][]int // dependencies each query resolved in its last execution
+	execCount               []int
+	executing               []bool
+	memo                    []bool // model: key currently memoised
+	executedBy              []int  // run tag of the execution that produced the current memo entry
+	obs                     []observation
+	viol                    *Verdict // first violation detected inside callbacks
+	prop                    string
+	nextRun                 int
+	activeRuns              int
+	probeLocks              bool
+	runActive               map[int]bool
+	usedDeps                [][]int // dependencies each query resolved in its last execution
 	concurrentPanicPossible bool
 }
 
@@ -358,6 +358,7 @@ func incrBubbleCfg(sc *Sched, w *gworld, budget int) sim.BubbleConfig {
 		MaxSteps:   budget,
 		WakePoints: incrWake,
 		PCT:        sc.PCT,
+		Tail:       sc.Tail,
 		Guards: map[string]func() bool{
 			// Executor.dirty is held (shared) by every Run for its whole duration; a
 			// goroutine blocked on a mutex is invisible to synctest, so the
